@@ -122,6 +122,7 @@ def run_history(item):
                     o["width"] = ad.width(out)
                     vals = [row_vector(r) for r in rs]
                     o["finite"] = all(isinstance(v, tuple) or bool(np.all(np.isfinite(v))) for v in vals)
+                    o["min"] = min([float(v.min()) for v in vals if not isinstance(v, tuple) and v.size] or [0.0])
                 except Exception as e:  # noqa
                     o["raised"] = True
                     o["exc"] = "rows: " + type(e).__name__ + ": " + str(e)[:200]
